@@ -450,5 +450,5 @@ class Forest(WeightedGraph):
             for i in range(self.V):
                 if depth[i] == j:
                     if np.size(np.unique(label[ch[i]])) == 1:
-                        label[i] = np.unique(label[ch[i]])
+                        label[i] = np.unique(label[ch[i]])[0]
         return label
